@@ -200,10 +200,17 @@ def read(path, root="CCSDSPacket"):
                         pt["enum"].append({"raw": tv, "label": e.attrib["label"]})
             if kind in ("abstime", "reltime"):
                 raise Unsupported("time types are not read by the independent reader")
+        us = t.findall("./{*}UnitSet/{*}Unit")
+        if len(us) > 1:
+            raise Unsupported("several units")
+        if us:
+            pt["unit"] = us[0].text or ""
         d["types"][name] = pt
         d["torder"].append(name)
     for p in _children(_child(tm, "ParameterSet"), "Parameter"):
-        d["params"][p.attrib["name"]] = {"type": p.attrib["parameterTypeRef"], "short": p.attrib.get("shortDescription", ""), "long": ""}
+        ld = _child(p, "LongDescription")
+        d["params"][p.attrib["name"]] = {"type": p.attrib["parameterTypeRef"], "short": p.attrib.get("shortDescription", ""),
+                                         "long": (ld.text or "") if ld is not None else ""}
         d["porder"].append(p.attrib["name"])
     for c in _children(_child(tm, "ContainerSet"), "SequenceContainer"):
         ents = []
@@ -223,7 +230,8 @@ def read(path, root="CCSDSPacket"):
             if rc is not None:
                 cl = criteria(rc)
         d["containers"][c.attrib["name"]] = {"abstract": _bool(c.attrib.get("abstract"), False), "base": base, "crit": cl, "entries": ents,
-                                             "short": c.attrib.get("shortDescription", ""), "long": ""}
+                                             "short": c.attrib.get("shortDescription", ""),
+                                             "long": (_child(c, "LongDescription").text or "") if _child(c, "LongDescription") is not None else ""}
         d["corder"].append(c.attrib["name"])
     return d
 
